@@ -766,6 +766,9 @@ def run(ctx):
         ctx.cov['witnesses_debug'] = st
 
     # ------------------------------------------------------------------ S: memory alive at the same time (C02_live_layers_linear)
+    # C02 is a per-surface property: the TOTAL of live surfaces follows the nesting depth / primitive count and is outside the property
+    # (recorded remark in the as-built note).  This stage validates the proved linear bound n * k^2 * W*H on the real code; a total that
+    # respects it is never a violation.
     ctx.cov['ledger'] = ledger_counts()
     live = []
     ld = live_docs()
